@@ -145,10 +145,26 @@ def body_unrodded(env):
     model = env.params['model']
     adiabatic = env.params['adiabatic']
     with env.patch(MODS):
-        key = 'ur-' + model
-        if key not in _FIX:
-            _FIX[key] = fixtures.make_unrodded(model)
-        r = copy.copy(_FIX[key])
+        built = env.params.get('built')
+        t_wall = None
+        if built:
+            # the real constructor (shared by both low-fidelity models) on a symbolic flat-to-flat list of nduct walls given
+            # in the stated order: the wall that is solved is the outermost one, whose outer face sees the gap
+            nduct, order = built
+            vals, prev = [], None
+            for i in range(2 * nduct):
+                v = env.pos('ftf%d' % i, hi=10)
+                if prev is not None:
+                    env.assume(v > prev)
+                prev = v
+                vals.append(v)
+            r = rum.SingleNodeHomogeneous('ur', 0.0, 1.0, [vals[i] for i in order], 0.3, 1.0, None, None, None)
+            t_wall = (vals[-1] - vals[-2]) / 2
+        else:
+            key = 'ur-' + model
+            if key not in _FIX:
+                _FIX[key] = fixtures.make_unrodded(model)
+            r = copy.copy(_FIX[key])
         ncool = 1 if model == 'simple' else 6
         r.temp = dict(r.temp)
         Tc = _vec(env, 'Tcool', ncool, lo=200, hi=3000)
@@ -160,8 +176,11 @@ def body_unrodded(env):
         r.coolant_params['htc'] = h
         k = env.pos('k_duct', hi=1e4)
         r.duct = _Duct(k)
-        t = env.pos('thickness', hi=1.0, actual=r.duct_thickness)
-        r.duct_thickness = t
+        if t_wall is None:
+            t = env.pos('thickness', hi=1.0, actual=r.duct_thickness)
+            r.duct_thickness = t
+        else:
+            t = t_wall
         t_gap = _vec(env, 'Tgap', 6, lo=200, hi=3000)
         h_gap = _vec(env, 'htc_gap', 6, lo=0, hi=1e7)
         if env.params.get('via_calculate'):
@@ -215,6 +234,9 @@ def instances(tier):
                              params={'model': model, 'adiabatic': adiabatic}))
             inst.append(dict(label='unrodded-step[%s,adiabatic=%s]' % (model, adiabatic), body=body_unrodded,
                              params={'model': model, 'adiabatic': adiabatic, 'via_calculate': True}))
+    for nd, order in ((1, (1, 0)), (2, (0, 1, 2, 3)), (2, (2, 3, 0, 1)), (3, (0, 1, 2, 3, 4, 5))):
+        inst.append(dict(label='unrodded-built[walls=%d,ftf list order %s]' % (nd, ''.join(map(str, order))), body=body_unrodded,
+                         params={'model': 'simple', 'adiabatic': False, 'built': (nd, order)}))
     return inst
 
 
